@@ -17,6 +17,34 @@ from .common import REPO, AnalysisError
 PKG = "func_adl_xAOD"
 
 
+def _number(tree: ast.AST):
+    """source-order numbering of every node (after all normalisations): `_ord` on entry, `_ord_end` = last number inside the subtree.
+    Rules order statements by these numbers, never by line numbers (E-INLINE moves statements without renumbering their lines)."""
+    counter = [0]
+
+    def rec(n):
+        counter[0] += 1
+        n._ord = counter[0]
+        for c in ast.iter_child_nodes(n):
+            rec(c)
+        n._ord_end = counter[0]
+    import sys
+    lim = sys.getrecursionlimit()
+    sys.setrecursionlimit(max(lim, 10000))
+    try:
+        rec(tree)
+    finally:
+        sys.setrecursionlimit(lim)
+
+
+def ordk(n: ast.AST) -> int:
+    return getattr(n, "_ord", getattr(n, "lineno", 0))
+
+
+def ordk_end(n: ast.AST) -> int:
+    return getattr(n, "_ord_end", getattr(n, "end_lineno", getattr(n, "lineno", 0)))
+
+
 @dataclass
 class Func:
     qual: str                 # module.Class.method / module.func / module.f.<locals>.g
@@ -98,6 +126,8 @@ class Repo:
                         m.tree = _norm(m.tree)
             for m in self.modules.values():
                 self._undo_renames(m, ref, undo_pure_renames)
+        for m in self.modules.values():
+            _number(m.tree)
         for m in self.modules.values():
             self._index(m)
         # bases written as bare names of classes of the same module -> qualified
@@ -328,11 +358,17 @@ class Repo:
             yield from m.all_funcs
 
     def enclosing_func(self, m: Module, node: ast.AST) -> Optional[Func]:
+        """innermost function whose subtree holds the node (structural: statements moved by E-INLINE keep their old line numbers)"""
+        k = getattr(node, "_ord", None)
         best = None
         for f in m.all_funcs:
-            if f.node.lineno <= node.lineno <= (f.node.end_lineno or f.node.lineno):
-                if best is None or f.node.lineno >= best.node.lineno:
-                    best = f
+            lo, hi = getattr(f.node, "_ord", None), getattr(f.node, "_ord_end", None)
+            if k is not None and lo is not None:
+                inside = lo <= k <= hi
+            else:
+                inside = f.node.lineno <= node.lineno <= (f.node.end_lineno or f.node.lineno)
+            if inside and (best is None or getattr(f.node, "_ord", f.node.lineno) >= getattr(best.node, "_ord", best.node.lineno)):
+                best = f
         return best
 
     # ------------------------------------------------------------------ attribute types
